@@ -94,8 +94,8 @@ package plugin
 // ---- C20: installation follows the version rules and decides before it mutates ----
 
 //@ func parsePluginName
-//@ props C20 C16
-//@ ensures[C20.name-from-file] result1 == nil ==> result != "" && fileName == "notation-" + result
+//@ props C20 C16 C17
+//@ ensures[C20.name-from-file,C17.name-from-file] result1 == nil ==> result != "" && fileName == "notation-" + result
 //@ ensures result1 != nil ==> result == ""
 
 //@ func isExecutableFile
